@@ -35,6 +35,7 @@
 #include <charconv>
 #include <cmath>
 #include <cstdint>
+#include <cstdio>
 #include <cstdlib>
 #include <cstring>
 #include <functional>
@@ -855,7 +856,7 @@ private:
     case JsonType::Int:
       return std::to_string(getInt());
     case JsonType::Double:
-      return std::to_string(getDouble());
+      return _formatDouble(getDouble());
     case JsonType::String:
       return _escapeString(getString());
     case JsonType::Array:
@@ -969,6 +970,27 @@ private:
     }
     result += "}";
     return result;
+  }
+
+  /// \brief Shortest of %.15g / %.16g / %.17g that reads back to the same double; keeps a ".0" so that the
+  /// value is parsed as a double again. (std::to_string prints %f: six decimals, 1e-7 became "0.000000".)
+  static std::string _formatDouble(double d)
+  {
+    char buf[40];
+    for (int prec = 15; prec <= 17; ++prec)
+    {
+      std::snprintf(buf, sizeof(buf), "%.*g", prec, d);
+      if (prec == 17 || std::strtod(buf, nullptr) == d)
+      {
+        break;
+      }
+    }
+    std::string out(buf);
+    if (std::isfinite(d) && out.find_first_of(".eE") == std::string::npos)
+    {
+      out += ".0";
+    }
+    return out;
   }
 
   std::string _escapeString(const std::string &str) const
